@@ -293,7 +293,8 @@ def workload(ctx, repo):
     for k in range(n):
         mode = rng.choice(R.MODES) if k % 2 else "gregorian"
         integral = k % 4 != 0
-        p = gen.rand_tp(rng, mode, integral=integral, bias=0.75)
+        p = gen.rand_tp(rng, mode, integral=integral, bias=0.75,
+                        year=gen.huge_year(rng) if k % 40 == 9 else None)
         if k % 7 == 0:
             case = {"op": "add_months", "mode": mode, "p": p,
                     "n": rng.choice([0, 1, -1, 12, -12, rng.randint(-40, 40),
